@@ -384,8 +384,9 @@ func runC15(c *Ctx) {
 		c.Check(K(h.Name, "filters provider addresses"), h.Pos(), okF, "provider addresses stored from the network pass the address filter", "no filterAddrs call")
 		g := c.Fn("(*dht.IpfsDHT).handleGetProviders")
 		c.Check(K(g.Name, "filters served addresses"), g.Pos(), len(g.CallsDeep("(*dht.IpfsDHT).filterAddrs")) >= 1, "provider addresses served to the network pass the address filter", "no filterAddrs call")
-		// advertisement: FilteredAddrs (C06.R3)
+		// advertisement: FilteredAddrs (C06.R3), in every ADD_PROVIDER the DHT builds
 		c06FilteredAddrs(c)
+		c06ProviderRecordContent(c)
 		for _, s := range p.AllCalls("(github.com/libp2p/go-libp2p/core/host.Host).Addrs") {
 			if eng.Short(s.F.Pkg.PkgPath) != "dht" {
 				continue
